@@ -19,7 +19,9 @@ RULE = ("case = 1-4 workers x {stdout, stderr} + <= 40 ops from {write n "
         "bytes (1 .. 8192, around the 1024-byte read buffer), close a "
         "channel, loop idle / single steps, sibling death, periodic check "
         "(respawn), incr / decr, time}; plus a leak family of many "
-        "spawn/kill generations.  Oracle: per (pid, channel) the concatenated "
+        "spawn/kill generations; plus a family on the WatchedFileStream class "
+        "(writes interleaved with the file being renamed, renamed and "
+        "re-created, removed by an external tool, close / open).  Oracle: per (pid, channel) the concatenated "
         "data records equal (worker alive / closed its pipe) or are a prefix "
         "of (worker terminated or died) the bytes written, every record is "
         "tagged with that pid and channel; the loop becomes idle after every "
@@ -81,7 +83,75 @@ def pattern(k, n):
     return bytes(((k * 31 + j * 7) % 251) for j in range(n))
 
 
+def execute_watched(case):
+    """The configured stream is a WatchedFileStream ("allowing an external
+    log rotation process to handle rotation"): what is written after the
+    external tool has moved, replaced or removed the file lands in the file
+    at the configured path; nothing is lost, duplicated or reordered."""
+    import shutil
+    import tempfile
+    from circus.stream import WatchedFileStream
+    tmp = tempfile.mkdtemp(prefix='c17w-')
+    path = os.path.join(tmp, 'out.log')
+    viols = []
+    classes = set(['watched-file'])
+    try:
+        st_ = WatchedFileStream(filename=path)
+        written = []          # chunks, in order
+        gone = []             # (content when it left the path, file or None)
+        since = 0             # index into written of the current file
+        k_ = 0
+        for ev in case["events"]:
+            if ev[0] == 'w':
+                k_ += 1
+                txt = ('%d:' % k_) + 'x' * ev[1] + '\n'
+                st_({"data": txt.encode(), "pid": 1, "name": "stdout"})
+                written.append(txt)
+            else:
+                classes.add('external-' + ev[0])
+                cur = open(path).read() if os.path.exists(path) else None
+                if ev[0] in ('rename', 'rename-create'):
+                    if cur is None:
+                        continue
+                    dst = os.path.join(tmp, 'rot%d' % len(gone))
+                    os.rename(path, dst)
+                    gone.append((cur, dst))
+                    if ev[0] == 'rename-create':
+                        open(path, 'w').close()     # logrotate "create"
+                elif ev[0] == 'remove':
+                    if cur is None:
+                        continue
+                    os.unlink(path)
+                    gone.append((cur, None))
+                elif ev[0] == 'reopen':
+                    st_.close()
+                    st_.open()
+        st_.close()
+        final = open(path).read() if os.path.exists(path) else ''
+        for i_, (content, dst) in enumerate(gone):
+            if dst is not None and open(dst).read() != content:
+                viols.append(Violation(
+                    'C17:watched-file:written-to-rotated-file',
+                    'file moved away as %s grew from %d to %d bytes: output '
+                    'written after the rotation went to the old file, not '
+                    'to the configured path' % (
+                        os.path.basename(dst), len(content),
+                        len(open(dst).read()))))
+        whole = ''.join(c for (c, _) in gone) + final
+        if not viols and whole != ''.join(written):
+            viols.append(Violation(
+                'C17:watched-file:content',
+                'rotated files + configured file hold %d bytes, %d were '
+                'written (events %r)' % (len(whole), len(''.join(written)),
+                                         case["events"])))
+    finally:
+        shutil.rmtree(tmp, ignore_errors=True)
+    return viols, len(classes) > 1, sorted(classes)
+
+
 def execute(case):
+    if "events" in case:
+        return execute_watched(case)
     out = (FileLikeCollector if case.get("out_filelike") else Collector)(
         'stdout')
     err = (FileLikeCollector if case.get("err_filelike") else Collector)(
@@ -397,15 +467,28 @@ def _strategy():
         optional={"close_other": st.booleans()})
 
 
+def _watched_strategy():
+    from hypothesis import strategies as st
+    ev = st.one_of(
+        st.tuples(st.just('w'), st.integers(0, 40)).map(list),
+        st.tuples(st.just('w'), st.integers(0, 40)).map(list),
+        st.sampled_from([['rename'], ['rename-create'], ['rename-create'],
+                         ['remove'], ['reopen']]))
+    return st.fixed_dictionaries(
+        {"events": st.lists(ev, min_size=1, max_size=14)})
+
+
 def plan(tier, seed):
     n = 1500 if tier == 'quick' else 10000
-    return [{"seed": seed * 100 + i, "n": n} for i in range(16)]
+    return [{"seed": seed * 100 + i, "n": n} for i in range(15)] + \
+        [{"seed": seed * 100 + 15, "n": n * 2, "watched": True}]
 
 
 def run_shard(spec):
     stats = Stats()
-    found = hyp_search(_strategy(), execute, stats, spec["seed"], spec["n"],
-                       known=spec["known"], max_rounds=6)
+    found = hyp_search(_watched_strategy() if spec.get("watched")
+                       else _strategy(), execute, stats, spec["seed"],
+                       spec["n"], known=spec["known"], max_rounds=6)
     res = stats.as_dict()
     res["violations"] = found
     return res
